@@ -8,4 +8,9 @@ PROPS = {
         "trusted": ["model of types/platform + DescriptorListSearch platform scan (Model/C16_Platform.v); strconv.Atoi, strings.Split, path.Join modelled by Base/StrX.v"],
         "assumptions": COMMON_ASSUME + ["feature lists (os.features/features) are modelled but not generated; Parse's ',osver=' argument syntax is exercised on the implementation only"],
     },
+    "C15": {
+        "props": "Props/C15.v", "corr": ["Corr/C15.v"],
+        "trusted": ["hand-written recognisers standing for the anchored regular expressions refRE/ocidirRE/schemeRE (Model/C15_Ref.v); Go regexp leftmost-first semantics is not modelled, the recognisers are validated differentially on every run"],
+        "assumptions": COMMON_ASSUME + ["the print/re-parse round trip is checked on every accepted string by the implementation-side oracle; its Coq proof is not finished (DESIGN.md C15)"],
+    },
 }
